@@ -317,12 +317,40 @@ theorem old_peer_reported_replay (w : World) (v : Vers) (hc : w.called = false) 
 theorem old_peer_report_is_final (w : World) (h : w.main = .failed) (es : List Ev) : (run w es).main = .failed :=
   failed_sticky es w h
 
-/-- every future `connector_for(x).connect()` gets the Failure at the next turn -/
+/-- every future `connect()` / `listen()` — on a fresh endpoint or on one the application has been
+    holding, whatever that endpoint was used for before — gets the Failure at the next turn -/
+theorem old_peer_future_call_fails (w : World) (nm : Option String) (h : w.main = .failed) :
+    (connectAs nm w).waiters = w.waiters ++ [.pending] ∧
+    (connectAs nm w).queue = w.queue ++ [.waiter w.waiters.length false] ∧
+    (runThunk (.waiter w.waiters.length false) (connectAs nm w)).waiters[w.waiters.length]? = some .failed := by
+  simp [connectAs, h, runThunk, resolveWaiter]
+
 theorem old_peer_future_connect_fails (w : World) (hm : w.hasMgr = true) (h : w.main = .failed) :
     let w' := (step w .connect).1
     w'.waiters = w.waiters ++ [.pending] ∧ w'.queue = w.queue ++ [.waiter w.waiters.length false] ∧
     (runThunk (.waiter w.waiters.length false) w').waiters[w.waiters.length]? = some .failed := by
-  simp [step, hm, connect, h, runThunk]
+  simp only [step, hm, ↓reduceIte, connect]
+  exact old_peer_future_call_fails w none h
+
+/-- the endpoint object has no memory: `connect()` / `listen()` on held endpoint `k` is exactly a
+    fresh wait on `_main_channel`, however often that endpoint has been used (and has failed) before -/
+theorem held_endpoint_is_stateless (w : World) (k : Nat) (l : Bool) (name : String) (he : w.eps[k]? = some (l, name)) :
+    (l = false → step w (.econnect k) = (connectAs none w, .done)) ∧
+    (l = true → step w (.elisten k) = (connectAs (some name) w, .done)) := by
+  constructor <;> intro hl <;> subst hl <;> simp [step, he]
+
+/-- so on a held endpoint too, once the Failure is stored every call fails at the next turn -/
+theorem old_peer_held_endpoint_fails (w : World) (k : Nat) (l : Bool) (name : String) (he : w.eps[k]? = some (l, name))
+    (h : w.main = .failed) :
+    let e : Ev := if l then .elisten k else .econnect k
+    (step w e).1.queue = w.queue ++ [.waiter w.waiters.length false] ∧
+    (runThunk (.waiter w.waiters.length false) (step w e).1).waiters[w.waiters.length]? = some .failed := by
+  obtain ⟨h1, h2⟩ := held_endpoint_is_stateless w k l name he
+  cases l
+  · simp only [Bool.false_eq_true, ↓reduceIte, h1 rfl]
+    exact (old_peer_future_call_fails w none h).2
+  · simp only [↓reduceIte, h2 rfl]
+    exact (old_peer_future_call_fails w (some name) h).2
 
 /-- **old_peer_reported**, end to end, for every incapable `versions` value and both orders: every
     connect() issued before or after the versions arrived has failed with OldPeerCannotDilateError
@@ -330,13 +358,18 @@ theorem old_peer_future_connect_fails (w : World) (hm : w.hasMgr = true) (h : w.
 theorem old_peer_reported (v : Vers) (hv : Incapable v) (nl al : Bool) (my : String) :
     (run (World.init nl al my) [.dilate, .connect, .versions v, .connect, .turn]).waiters = [.failed, .failed] ∧
     (run (World.init nl al my) [.versions v, .dilate, .connect, .turn, .connect, .turn]).waiters = [.failed, .failed] ∧
-    (run (World.init nl al my) [.key, .versions v, .dilate, .connect, .turn]).waiters = [.failed] := by
+    (run (World.init nl al my) [.key, .versions v, .dilate, .connect, .turn]).waiters = [.failed] ∧
+    -- endpoints obtained right after dilate(), used before and after the versions arrive, and retried after a failure
+    (run (World.init nl al my) [.dilate, .ep false "a", .ep true "b", .econnect 0, .elisten 1, .versions v, .turn,
+      .econnect 0, .elisten 1, .turn, .econnect 0, .elisten 1, .turn]).waiters =
+      [.failed, .failed, .failed, .failed, .failed, .failed] := by
   have hrv : replayVersions? (some v) = some v := by
     simp [replayVersions?, Flags.pending_versions_guard_is_not_none]
   have hv' : falsy (findShared Consts.DILATION_VERSIONS v.can) = true := hv
   have hrn : replayVersions? none = none := by simp [replayVersions?]
-  refine ⟨?_, ?_, ?_⟩ <;>
-    simp [run, step, hrn, Terminator.init, World.init, dilate, replayKey, replayVersions, hrv, drainMsgs, andThen, connect, gotVersions,
+  refine ⟨?_, ?_, ?_, ?_⟩ <;>
+    simp [run, step, hrn, Terminator.init, World.init, dilate, replayKey, replayVersions, hrv, drainMsgs, andThen, connect, connectAs,
+      resolveWaiter, gotVersions,
       mgrGotVersions, hv', mainError, mInput, Manager.init, Manager.table, mOuts, mOut, sendGen, emit, turn, runThunks,
       runThunk, ofRes, gotKey]
 
